@@ -360,7 +360,8 @@ def _same_text(x, y, rel):
     global _NUM_IN_TEXT
     import re
     if _NUM_IN_TEXT is None:
-        _NUM_IN_TEXT = re.compile(r'\d+\.\d+(?:[eE][-+]?\d+)?|\d+[eE][-+]?\d+')
+        # decimals, exponent forms, and integers too long for a double to hold exactly
+        _NUM_IN_TEXT = re.compile(r'\d+\.\d+(?:[eE][-+]?\d+)?|\d+[eE][-+]?\d+|\d{15,}')
     px, py = _NUM_IN_TEXT.split(x), _NUM_IN_TEXT.split(y)
     if px != py:
         return False
